@@ -358,11 +358,15 @@ def check(case):
     case = dict(case, feature=feat)
     if kind in ("doc", "alias"):
         text, facts = render_feature(feat)
+        if case.get("crlf"):
+            text = text.replace(u"\n", u"\r\n")       # a file written on Windows: same document
         model = parser.parse_feature(text, language=feat.get("lang"), filename="features/doc.feature")
         cmp_feature(Cmp(res, "parse_feature"), model, facts)
         if kind == "alias" or case.get("via_file"):
             # via a file with a '# language:' header (line numbers shift by one)
             text2, facts2 = render_feature(feat, language_header=True)
+            if case.get("crlf"):
+                text2 = text2.replace(u"\n", u"\r\n")
             fd, path = tempfile.mkstemp(suffix=".feature", prefix="vf-c04-", dir=scratch_dir())
             try:
                 with os.fdopen(fd, "wb") as f:
@@ -376,6 +380,8 @@ def check(case):
             if model2 is not None and not res.violations:
                 check_parser_reuse(res, model2, facts2, text2)
         classify(res, feat, facts, text)
+        if case.get("crlf"):
+            res.label("line-endings:crlf")
         if kind == "alias":
             res.label("alias")
             res.nontrivial = True
@@ -615,15 +621,17 @@ def partial_case(draw):
 def explore(rec):
     quick = rec.tier == "quick"
     rec.enum("all-languages-all-aliases", alias_enumeration())
-    rec.hyp("random-documents", feature_st().map(lambda f: {"kind": "doc", "feature": f}), 4000 if quick else 80000)
-    rec.hyp("random-documents-via-file", feature_st().map(lambda f: {"kind": "doc", "feature": f, "via_file": True}),
+    rec.hyp("random-documents", st.builds(lambda f, c: {"kind": "doc", "feature": f, "crlf": c}, feature_st(),
+                                          st.sampled_from([False, False, True])), 4000 if quick else 80000)
+    rec.hyp("random-documents-via-file", st.builds(lambda f, c: {"kind": "doc", "feature": f, "via_file": True, "crlf": c},
+                                                   feature_st(), st.sampled_from([False, True])),
             500 if quick else 8000)
     rec.hyp("partial-entry-points", partial_case(), 2000 if quick else 30000)
 
 
 def required_labels(tier):
     return ["rule", "outline>=2examples", "docstring", "escaped-pipe", "non-english", "noise", "and-but-star", "alias",
-            "via-file", "parser-reuse", "parser-reuse:non-english", "describe-roundtrip", "entry:steps", "entry:scenario", "entry:rule", "entry:tags"]
+            "via-file", "line-endings:crlf", "parser-reuse", "parser-reuse:non-english", "describe-roundtrip", "entry:steps", "entry:scenario", "entry:rule", "entry:tags"]
 
 
 KNOWN_PREDICATES = {}
